@@ -365,7 +365,7 @@ Proof.
   rewrite (total_power_map _ _ AP).
   set (T := total_power (vs_vals s)) in *.
   assert (In m (advance (vs_vals s))) as Hm by (eapply nth_error_In; exact Hn).
-  assert (- (B + T) <= v_prio m <= B + T) as Bm.
+  assert (- B <= v_prio m <= B + T) as Bm.
   { unfold advance in Hm. apply in_map_iff in Hm. destruct Hm as (u & <- & Hu). cbn [set_prio v_prio].
     specialize (HB u Hu). pose proof (power_le_total _ _ Pp Hu). specialize (Pp u Hu). lia. }
   rewrite safe_sub_clip'_exact by i64.
@@ -375,9 +375,9 @@ Proof.
   split; [|split; [|split; [|split; [|split]]]].
   - exists m. split; [exact HP|]. split; reflexivity.
   - unfold advance in Hm. apply in_map_iff in Hm. destruct Hm as (u & <- & Hu). exists u. auto.
-  - split.
+  - split; cbn [with_vals vs_vals vs_total].
     + eapply wf_vals_fields; [| |exact W]; [rewrite PA; exact AA|rewrite PP; exact AP].
-    + cbn [vs_total vs_vals]. rewrite ET. symmetry. apply total_power_map. rewrite PP. exact AP.
+    + rewrite ET. symmetry. apply total_power_map. rewrite PP. exact AP.
   - reflexivity.
   - reflexivity.
   - intros v' Hv'. unfold pay in Hv'. apply in_map_iff in Hv'. destruct Hv' as (w & <- & Hw).
@@ -412,11 +412,12 @@ Proof.
   induction k as [|k IH]; intros s B W HB B0' BM.
   - cbn [nat_rect iter_step].
     destruct (increment_once_refines s B W HB B0' ltac:(lia)) as (s' & m & -> & R & M0 & W' & T' & P' & HB').
-    exists s', m, [v_addr m]. repeat split; try assumption; try apply W'.
-    + econstructor; [exact R|constructor].
-    + intros v Hv. specialize (HB' v Hv). lia.
-    + intros v Hv. specialize (HB' v Hv). lia.
-  - destruct (IH s B W HB B0') as (s1 & m1 & props & E & R & L & M0 & W1 & T1 & P1 & HB1); [lia|].
+    exists s', m, [v_addr m].
+    split; [reflexivity|]. split; [econstructor; [exact R|constructor]|]. split; [reflexivity|].
+    split; [exact M0|]. split; [exact W'|]. split; [exact T'|]. split; [exact P'|].
+    intros v Hv. specialize (HB' v Hv). lia.
+  - destruct (IH s B W HB B0') as (s1 & m1 & props & E & R & L & M0 & W1 & T1 & P1 & HB1);
+      [unfold max_total_voting_power in *; lia|].
     change (nat_rect (fun _ => iter_state) (Some (s, None)) (fun _ => iter_step) (S (S k)))
       with (iter_step (nat_rect (fun _ => iter_state) (Some (s, None)) (fun _ => iter_step) (S k))).
     rewrite E. cbn [iter_step].
@@ -424,22 +425,23 @@ Proof.
     { destruct W as [_ E0], W1 as [_ E1]. lia. }
     pose proof (proj2 (proj2 (proj2 (proj1 W)))) as Cap.
     pose proof (wf_total_pos _ (proj1 W)) as Tpos.
+    assert (Z.of_nat (S k) * total_power (vs_vals s) <= Z.of_nat (S k) * max_total_voting_power) as MM
+      by (apply Z.mul_le_mono_nonneg_l; lia).
+    assert (0 <= Z.of_nat (S k) * total_power (vs_vals s)) as MP by (apply Z.mul_nonneg_nonneg; lia).
     destruct (increment_once_refines s1 (B + Z.of_nat (S k) * total_power (vs_vals s)) W1 HB1) as
-        (s' & m & -> & R' & M0' & W' & T' & P' & HB'); [nia|nia|].
-    exists s', m, (props ++ [v_addr m]). repeat split; try apply W'.
-    + now apply spec_rounds_snoc.
-    + now rewrite last_last.
-    + destruct M0' as (m0 & Hm0 & A0 & P0).
+        (s' & m & -> & R' & M0' & W' & T' & P' & HB'); [lia|unfold max_total_voting_power in *; lia|].
+    exists s', m, (props ++ [v_addr m]).
+    split; [reflexivity|]. split; [eapply spec_rounds_snoc; eassumption|]. split; [now rewrite last_last|].
+    split.
+    { destruct M0' as (m0 & Hm0 & A0 & P0).
       (* m0 is in s1; its address and power come from s *)
       destruct (spec_rounds_accounted _ _ _ _ R) as [F _].
       clear - F Hm0 A0 P0. induction F as [|x y l l' Hxy F IHF]; [destruct Hm0|].
       destruct Hm0 as [->|Hm0].
       * exists x. destruct Hxy as (A & P & _). split; [now left|]. split; congruence.
-      * destruct (IHF Hm0) as (z & Hz & ?). exists z. split; [now right|assumption].
-    + congruence.
-    + congruence.
-    + intros v Hv. specialize (HB' v Hv). rewrite ET in HB'. lia.
-    + intros v Hv. specialize (HB' v Hv). rewrite ET in HB'. lia.
+      * destruct (IHF Hm0) as (z & Hz & ?). exists z. split; [now right|assumption]. }
+    split; [exact W'|]. split; [congruence|]. split; [congruence|].
+    intros v Hv. specialize (HB' v Hv). rewrite ET in HB'. lia.
 Qed.
 
 (* ------------------------------------------------------------------ *)
